@@ -142,6 +142,8 @@ def run(ctx, res):
     res.rule = ("text listings with blank lines, trailing blanks/tabs/FF/NBSP, non-ASCII characters, missing final newline and "
                 "CR/LF/CRLF mixes; ASCII BASIC byte files with any mix of CR and LF; --dos on/off; non-trivial = has a line "
                 "break and a printable character; distinct by content")
+    import baslib
+    baslib.conv_cli_stream(ctx, res, ctx.n(120, 1500))
     fixed = ["10 PRINT\n20 END\n", "", "\n\n", "a  \nb\t\n", "é10 Aé\n", "x", "a\r\nb\rc\n", "  \n \x0c\n10 A\xa0\n", "a\u2028b\n", "10 A\x1f\n\x1c\n"]
     for t in fixed:
         text_case(ctx, res, "fixed", t)
